@@ -353,6 +353,37 @@ func contentOnly(tree string) string {
 	return "\x00" + tree
 }
 
+// hasDirInput: does the target (transitively) consume a directory output?
+func hasDirInput(s *repoState, l string, trees map[string]string) bool {
+	for _, d := range s.closure([]string{l}) {
+		if d != l && strings.HasPrefix(trees[d], "d:") {
+			return true
+		}
+	}
+	return false
+}
+
+// eraseEntryNameLines drops the "./name" lines that cat/catn print for the entries of a directory input.
+func eraseEntryNameLines(tree string) string {
+	body := tree
+	for _, p := range []string{"fx:", "f:"} {
+		if strings.HasPrefix(body, p) {
+			body = body[len(p):]
+			break
+		}
+	}
+	if i := strings.Index(body, "+x:"); i >= 0 {
+		body = body[:i]
+	}
+	var out []string
+	for _, ln := range strings.Split(decodeHex(body), "\n") {
+		if !strings.HasPrefix(ln, "./") {
+			out = append(out, ln)
+		}
+	}
+	return strings.Join(out, "\n")
+}
+
 func decodeHex(s string) string {
 	if s == "-" {
 		return ""
@@ -874,6 +905,12 @@ func runHistory(idx int, ops []string, scratch, plz string) ([]result, []oracleF
 				if lastIncr[l] != trees[l] {
 					class := "incremental-differs-from-clean"
 					if contentOnly(lastIncr[l]) == contentOnly(trees[l]) && lastIncr[l] != "missing" {
+						class = "stale-output-dir-hash-ignores-entry-names"
+					} else if strings.HasPrefix(lastIncr[l], "f") && strings.HasPrefix(trees[l], "f") && hasDirInput(s, l, trees) &&
+						eraseEntryNameLines(lastIncr[l]) == eraseEntryNameLines(trees[l]) {
+						// the same root cause one step later: this target's own definition and its inputs' CONTENT hashes are those
+						// of an earlier state whose directory input differed only in entry names, so its stamp / cache key matched and
+						// a stale output was kept or restored; the two outputs differ only in the "./name" lines that list the entries
 						class = "stale-output-dir-hash-ignores-entry-names"
 					} else if strings.TrimPrefix(strings.TrimPrefix(lastIncr[l], "fx:"), "f:") == strings.TrimPrefix(strings.TrimPrefix(trees[l], "fx:"), "f:") &&
 						(strings.HasPrefix(lastIncr[l], "f") && strings.HasPrefix(trees[l], "f")) && !strings.Contains(lastIncr[l], "+x:") && !strings.Contains(trees[l], "+x:") {
